@@ -233,6 +233,11 @@ func (x *Exec) makeEnv(sig *types.Signature, recvName string, self Term, entryVa
 // verifyUnit runs one unit and returns its obligations.
 func verifyUnit(ld *Loader, db *ContractDB, specs *SpecLib, u *Unit, prop string) (res *UnitResult) {
 	x := newExec(ld, db, u.Pkg, u.CF, specs)
+	defer func() {
+		if x.scratch != "" {
+			os.RemoveAll(x.scratch)
+		}
+	}()
 	x.curProp = prop
 	x.unit = u.Name
 	x.props = u.Props
@@ -461,6 +466,7 @@ func (x *Exec) litUnit(u *Unit) {
 		// a channel this goroutine may close although its send side belongs to someone else
 		if c, ok := env0.lookup(nm); ok {
 			x.chSetFlag(st, "mayclose", c, tTrue)
+			x.closesChans = append(x.closesChans, c)
 			x.chSetFlag(st, "closed", c, tFalse)
 			x.chSetInt(st, "shares", c, tInt(0))
 		} else {
@@ -483,6 +489,7 @@ func (x *Exec) litUnit(u *Unit) {
 		name, m, tr := x.chTrace(st, "rcvd", c)
 		st.maps[name] = tStore(m, c, Term{S: "emp_" + tr, Sort: tr})
 		x.chSetFlag(st, "drained", c, tFalse)
+		x.inputChans = append(x.inputChans, c)
 	}
 	x.inGoroutine = true
 	st.ghosts["sawCancel"] = tFalse
